@@ -5,6 +5,7 @@ import (
 	"context"
 	"encoding/json"
 	"fmt"
+	"github.com/cloudwego/dynamicgo/internal/simrt"
 	"math"
 
 	"github.com/cloudwego/dynamicgo/thrift/base"
@@ -70,6 +71,23 @@ func sprinkleNonFinite(w *W, v *TVal) {
 			sprinkleNonFinite(w, e)
 		}
 	}
+}
+
+// respBaseField draws a base.BaseResp and encodes it as field 255 of the enclosing struct.
+func respBaseField(t *simrt.Tape) ([]byte, *base.BaseResp) {
+	want := &base.BaseResp{StatusMessage: string(vgenStr(t, 40)), StatusCode: int32(t.Intn(1000, "respbase.code")) - 500}
+	bb := []byte{tSTRUCT, 0, 255, tSTRING, 0, 1, 0, 0, 0, byte(len(want.StatusMessage))}
+	bb = append(bb, want.StatusMessage...)
+	bb = append(bb, tI32, 0, 2, byte(uint32(want.StatusCode)>>24), byte(uint32(want.StatusCode)>>16), byte(uint32(want.StatusCode)>>8), byte(uint32(want.StatusCode)))
+	if t.Chance(1, 2, "respbase.extra") {
+		k, v := string(vgenStr(t, 8)), string(vgenStr(t, 100))
+		want.Extra = map[string]string{k: v}
+		bb = append(bb, tMAP, 0, 3, tSTRING, tSTRING, 0, 0, 0, 1, 0, 0, 0, byte(len(k)))
+		bb = append(bb, k...)
+		bb = append(bb, 0, 0, 0, byte(len(v)))
+		bb = append(bb, v...)
+	}
+	return append(bb, 0), want
 }
 
 // takeRespBaseMember checks and removes the "BaseResp" member of a document converted with the response-base switch off.
@@ -172,22 +190,27 @@ func runC03(w *W) {
 		if t.Chance(1, 4, "msg.unknown") {
 			nunk = addUnknownThriftFields(t, val)
 		}
+		// the response struct nested in itself: only the root's base goes to the context, a nested one is an ordinary member
+		nestedKey := ""
+		var nestedWant *base.BaseResp
+		if convBase && t.Chance(1, 2, "respbase.nested") {
+			for i := range val.Fields {
+				fv := &val.Fields[i]
+				if fv.F != nil && fv.V != nil && fv.F.T.Kind == tSTRUCT && fv.F.T.St == sch.Root.St {
+					var nbb []byte
+					nbb, nestedWant = respBaseField(t)
+					fv.V.Fields = append(fv.V.Fields, TFieldVal{UnknownKey: "#255", UnknownRaw: nbb})
+					nestedKey = fv.F.Key()
+					w.Count("nested_response_base")
+					break
+				}
+			}
+		}
 		src := encodeThrift(nil, val)
 		var wantBase *base.BaseResp
 		if respBase {
-			wantBase = &base.BaseResp{StatusMessage: string(vgenStr(t, 40)), StatusCode: int32(t.Intn(1000, "respbase.code")) - 500}
-			bb := []byte{tSTRUCT, 0, 255, tSTRING, 0, 1, 0, 0, 0, byte(len(wantBase.StatusMessage))}
-			bb = append(bb, wantBase.StatusMessage...)
-			bb = append(bb, tI32, 0, 2, byte(uint32(wantBase.StatusCode)>>24), byte(uint32(wantBase.StatusCode)>>16), byte(uint32(wantBase.StatusCode)>>8), byte(uint32(wantBase.StatusCode)))
-			if t.Chance(1, 2, "respbase.extra") {
-				k, v := string(vgenStr(t, 8)), string(vgenStr(t, 100))
-				wantBase.Extra = map[string]string{k: v}
-				bb = append(bb, tMAP, 0, 3, tSTRING, tSTRING, 0, 0, 0, 1, 0, 0, 0, byte(len(k)))
-				bb = append(bb, k...)
-				bb = append(bb, 0, 0, 0, byte(len(v)))
-				bb = append(bb, v...)
-			}
-			bb = append(bb, 0)
+			var bb []byte
+			bb, wantBase = respBaseField(t)
 			// the field sits at a tape-chosen top-level position: in front, or right before the STOP byte
 			if t.Chance(1, 2, "respbase.front") {
 				src = append(bb, src...)
@@ -259,6 +282,12 @@ func runC03(w *W) {
 				}
 				if dk := objectKeysDup(r.Out); dk != "" {
 					w.Failf("duplicate-member", facts, "t2j emitted member %q twice: %s", dk, clip(r.Out, 500))
+				}
+				if nestedKey != "" {
+					sub, _ := parsed.(map[string]interface{})
+					if d := takeRespBaseMember(sub[nestedKey], nestedWant); d != "" {
+						w.Failf("wrong-json", facts, "the nested response struct lost its BaseResp member (env %s): %s\njson: %s", env, d, clip(r.Out, 600))
+					}
 				}
 				if respBase && !convBase {
 					if d := takeRespBaseMember(parsed, wantBase); d != "" {
